@@ -67,6 +67,12 @@ DECLS = {
     "req-affiliation=admin(unsatisfiable)": [("eduPersonAffiliation", True, ["admin"])],
     "opt-affiliation=member+req-sn": [("eduPersonAffiliation", False, ["member"]), ("sn", True, [])],
     "req-mail+opt-displayName": [("mail", True, []), ("displayName", None, [])],
+    # an empty AttributeValue element next to a real one: the values "staff" and "" are declared, nothing else
+    "req-affiliation=staff-or-empty": [("eduPersonAffiliation", True, ["staff", ""])],
+    "opt-affiliation=empty-only": [("eduPersonAffiliation", False, [""]), ("givenName", True, [])],
+    # the SP's metadata has a second SAML 2.0 SPSSODescriptor that declares no attribute consuming service at all
+    "req-givenName|second-descriptor-without-declaration": [("givenName", True, [])],
+    "req-affiliation=staff|second-descriptor-without-declaration": [("eduPersonAffiliation", True, ["staff"])],
 }
 CATS = {
     "none": [],
@@ -105,6 +111,12 @@ def base_identity(rng, shape):
         out["eduPersonAffiliation"] = ["staff ", "staffX", "member"]
         out["givenName"] = [gen.value(rng) for _ in range(3)]
         return out
+    if shape == "scalar-values":
+        # single values handed over as such, not wrapped in a list
+        out = {k: (v[0] if len(v) == 1 else list(v)) for k, v in ident.items()}
+        out["eduPersonAffiliation"] = "staff-member"      # ("staff", "member", "taf" are substrings of it, not values)
+        out["mail"] = "ann@example.org"
+        return out
     if shape == "mixed-types":
         # a user directory hands over numbers, booleans and octets next to text (what is released is their text form)
         out = dict(ident)
@@ -120,7 +132,7 @@ def base_identity(rng, shape):
 def gen_cases(tier, seed):
     rng = random.Random(seed)
     cases = []
-    shapes = ["full", "case-variants", "sparse", "hostile-values", "mixed-types"]
+    shapes = ["full", "case-variants", "sparse", "hostile-values", "mixed-types", "scalar-values"]
     for pol, decl, cat in itertools.product(sorted(POLICIES), sorted(DECLS), sorted(CATS)):
         ec = pol.startswith("ec-")
         if not ec and cat not in ("none", "unrelated"):
@@ -239,7 +251,7 @@ def run_sequence(case, ctx):
     def answer(item):
         step, (eid, decl, cat), ident, uid = item
         try:
-            return "%s" % idp.create_authn_response(dict((a, list(v)) for a, v in ident.items()), "id-req-%d" % step, eid.replace("/md", "/acs"), eid,
+            return "%s" % idp.create_authn_response(dict((a, list(v) if isinstance(v, list) else v) for a, v in ident.items()), "id-req-%d" % step, eid.replace("/md", "/acs"), eid,
                                                     userid=uid, authn=fed.AUTHN, sign_response=False, sign_assertion=False)
         except Exception:
             return None
@@ -297,8 +309,11 @@ def _idp(ctx, pol, decl, cat):
         requested = None
         if DECLS[decl] is not None:
             requested = [(to[n], n, req, vals) for n, req, vals in DECLS[decl]]
-        spmd = mdgen.entity({"eid": fed.SP_EID, "entity_categories": CATS[cat],
-                             "sp": {"keys": [("signing", 1), ("encryption", 2)], "acs": [(B_POST, fed.ACS_POST, 1, True)], "requested": requested}})
+        ent = {"eid": fed.SP_EID, "entity_categories": CATS[cat],
+               "sp": {"keys": [("signing", 1), ("encryption", 2)], "acs": [(B_POST, fed.ACS_POST, 1, True)], "requested": requested}}
+        if "second-descriptor" in decl:
+            ent["sp_second"] = {"keys": [("signing", 1)], "acs": [(B_POST, fed.ACS_POST + "/second", 5, None)]}
+        spmd = mdgen.entity(ent)
         policy = {}
         for who, spec in POLICIES[pol].items():
             policy[who] = dict({"lifetime": {"minutes": 15}}, **spec)
@@ -373,9 +388,9 @@ def run_case(case, ctx):
     try:
         if case["call"] == "authn":
             fn = idp.create_authn_request_response if case.get("callopt") == "alias" else idp.create_authn_response
-            resp = fn(dict((k, list(v)) for k, v in ident.items()), "id-req-1", fed.ACS_POST, fed.SP_EID, userid="u1", authn=fed.AUTHN, **kw)
+            resp = fn(dict((k, list(v) if isinstance(v, list) else v) for k, v in ident.items()), "id-req-1", fed.ACS_POST, fed.SP_EID, userid="u1", authn=fed.AUTHN, **kw)
         else:
-            resp = idp.create_attribute_response(dict((k, list(v)) for k, v in ident.items()), "id-req-1", fed.ACS_POST, fed.SP_EID, userid="u1", **kw)
+            resp = idp.create_attribute_response(dict((k, list(v) if isinstance(v, list) else v) for k, v in ident.items()), "id-req-1", fed.ACS_POST, fed.SP_EID, userid="u1", **kw)
         xml = "%s" % resp
         exc = None
     except Exception as e:
@@ -398,6 +413,8 @@ def judge(case, ident, xml, eid, prefix=""):
     success = status == "urn:oasis:names:tc:SAML:2.0:status:Success"
     lident = {}
     for k, v in ident.items():
+        if isinstance(v, (str, bytes, int, bool)):
+            v = [v]
         # (text form as the IdP writes it: booleans in lower case, octets decoded)
         lident.setdefault(k.lower(), set()).update(
             x if isinstance(x, str) else (str(x).lower() if isinstance(x, bool) else (x.decode("utf-8") if isinstance(x, bytes) else str(x))) for x in v)
